@@ -78,7 +78,22 @@ def _eq_fields(ctx) -> List[str]:
         for c in conj:
             f_ = field_of(c)
             if f_ is None:
-                raise AnalysisError(f"Style.__eq__ conjunct not of the form self._x == other._x: {norm(c)}")
+                # a helper that compares the two values of one field through a projection (parts of the value only)
+                cz = None
+                if isinstance(c, ast.Call) and isinstance(c.func, ast.Name) and len(c.args) == 2 and not c.keywords and all(isinstance(a, ast.Attribute) for a in c.args) and c.args[0].attr == c.args[1].attr \
+                        and {norm(c.args[0].value), norm(c.args[1].value)} == {"self", other} and c.func.id in m.module.functions:
+                    h = m.module.functions[c.func.id]
+                    hp = h.params[:2]
+                    for cmp_ in walk_local(h.node):
+                        if isinstance(cmp_, ast.Compare) and len(cmp_.ops) == 1 and isinstance(cmp_.ops[0], ast.Eq):
+                            l_, r_ = cmp_.left, cmp_.comparators[0]
+                            if isinstance(l_, (ast.Subscript, ast.Attribute)) and isinstance(r_, (ast.Subscript, ast.Attribute)) and {norm(l_.value), norm(r_.value)} == set(hp):
+                                cz = (c.args[0].attr, f"{c.func.id}() compares `{norm(cmp_)}`, a part of the two values only")
+                if cz is None:
+                    raise AnalysisError(f"Style.__eq__ conjunct not of the form self._x == other._x: {norm(c)}")
+                ctx.extra.setdefault("eq_coarse", {})[cz[0]] = (cz[1], norm(c))
+                fs.add(cz[0])
+                continue
             fs.add(f_)
         per_path.append(fs)
     if not per_path:
@@ -348,6 +363,9 @@ def r6_1(ctx):
         ctx.violation(hm.fq, f"{d.a[0]} vs {d.b[0]}", hm.where,
                       f"the hash is computed from the field tuple {d.a[0]} in {d.a[1]} but from {d.b[0]} in {d.b[1]}: equal styles built on different routes hash differently")
         return
+    for fld, (why, txt) in sorted(ctx.extra.get("eq_coarse", {}).items()):
+        if fld in hf:
+            ctx.violation(m.fq, txt, m.where, f"__eq__ compares `{fld}` through `{txt}` ({why}) while the hash is computed from the whole field: two styles that differ only in the ignored part compare equal and hash differently (Style.parse('red') == Style.parse('color(1)') with different hashes) - equal styles must have equal hashes")
     ctx.check(
         set(eqf) == set(hf), m.fq, f"eq={sorted(eqf)} hash={sorted(hf)}", m.where,
         f"__eq__ fields {sorted(eqf)} == hash fields (defined in {where})",
